@@ -160,6 +160,8 @@ def run(ctx):
         sb = q.switches_on(nb, lambda d: d[0] == 'bin' and d[1] in ('Eq', 'Ne') and is_alpha_of(d[2], 1) and q.const_val(d[3]) == 0)
         ss = q.switches_on(nb, lambda d: d[0] == 'bin' and d[1] in ('Eq', 'Ne') and is_alpha_of(d[2], 2) and q.const_val(d[3]) == 0)
         ctx.floor('alpha tests in normal', len(sb) + len(ss), 2)
+        ctx.inst('W4', 'normal#edges-present', len(sb) == 1 and len(ss) == 1, 'normal() tests backdrop alpha == 0 (%d site) and source alpha == 0 (%d site); must be one each - '
+                 'without the backdrop test the general formula divides by a total alpha of 0' % (len(sb), len(ss)), nb.span, key=nb.name + '|W4|edges-present')
 
         def zero_edge(sw):
             d = q.switch_cond(nb, sw)
